@@ -84,6 +84,9 @@ Inductive conv :=
 | CvId                                        (* identity, and C-order reshapes (flat layout unchanged) *)
 | CvImgF (r c : nat)                          (* Image2D(order='F'): fun[i,j] = par[j*r+i] *)
 | CvImgC (r c : nat)                          (* Image2D(order='C'), Continuous2D: length check only *)
+| CvLin (K M : list (list Qc))               (* a linear expansion geometry (KLExpansion; class KStep = "a subclass of
+                                                 Continuous1D"): par2fun p = K p, fun2par f = M f.  K, M are supplied by the
+                                                 harness from the documented DST formulas, not read from the implementation *)
 | CvStep (nfun : nat) (idx : list (list nat)) (pj : proj) (sq : bool).
                                               (* StepExpansion: idx = _indices; sq: fun2par ends in an unrestricted
                                                  squeeze() (today) instead of dropping only the axis of functions *)
@@ -94,6 +97,7 @@ Definition conv_eqb (a b : conv) : bool :=
   | CvId, CvId => true
   | CvImgF r c, CvImgF r' c' => Nat.eqb r r' && Nat.eqb c c'
   | CvImgC r c, CvImgC r' c' => Nat.eqb r r' && Nat.eqb c c'
+  | CvLin K M, CvLin K' M' => qcll_eqb K K' && qcll_eqb M M'
   | CvStep n i p s, CvStep n' i' p' s' => Nat.eqb n n' && natll_eqb i i' && proj_eqb p p' && Bool.eqb s s'
   | _, _ => false
   end.
@@ -199,6 +203,10 @@ Definition conv_par2fun (cv : conv) (in2d : bool) (p : vec) : res vec :=
   | CvId => Ok p
   | CvImgF r c => if Nat.eqb (length p) (r * c) then Ok (if in2d then p else img_par2fun r c p) else Err EValue
   | CvImgC r c => if Nat.eqb (length p) (r * c) then Ok p else Err EValue
+  | CvLin K _ => match K with
+                 | [] => Err EValue
+                 | row :: _ => if Nat.eqb (length p) (length row) then Ok (qmatvec K p) else Err EValue
+                 end
   | CvStep nfun idx _ _ => if Nat.eqb (length p) (length idx) then Ok (step_par2fun nfun idx p) else Err EValue
   end.
 
@@ -210,6 +218,7 @@ Definition conv_fun2par (cv : conv) (flat1d : bool) (f : vec) : res vec :=
   | CvImgF r c => if flat1d then Ok f
                   else if Nat.eqb (length f) (r * c) then Ok (img_fun2par r c f) else Err EValue
   | CvImgC r c => if flat1d then Ok f else if Nat.eqb (length f) (r * c) then Ok f else Err EValue
+  | CvLin K M => if Nat.eqb (length f) (length K) then Ok (qmatvec M f) else Err EValue
   | CvStep nfun idx pj _ => if Nat.eqb (length f) nfun then step_fun2par idx pj f else Err EValue
   end.
 
@@ -236,13 +245,14 @@ Definition g_fun2par (g : geo) (f : vec) : res vec := g_fun2par_gen g false f.
    arithmetic (numpy keeps the ndarray subclass and its attributes) -- or, for StepExpansion, a fresh
    np.zeros array filled by assignment (plain ndarray) *)
 Definition g_keeps (g : geo) : bool :=
-  plain1d (g_cls g) || match g_conv g with CvStep _ _ _ _ => false | _ => true end.
+  plain1d (g_cls g) || match g_conv g with CvStep _ _ _ _ | CvLin _ _ => false | _ => true end.
 
 (* fun2par ends in .squeeze(): a single-parameter StepExpansion returns a 0-d array *)
 Definition g_f2p_0d (g : geo) : bool :=
   negb (plain1d (g_cls g)) &&
   match g_f2p g, g_conv g with
   | (F2Base | F2Imap _), CvStep _ idx _ sq => sq && Nat.eqb (length idx) 1
+  | (F2Base | F2Imap _), CvLin _ M => Nat.eqb (length M) 1
   | _, _ => false
   end.
 
@@ -570,6 +580,17 @@ Definition check_forward (q : quirks) (F : fwd) (rg dg : geo) (x : input) (is_pa
 Definition check_gradient (q : quirks) (gf : gfun) (rg dg : geo) (d w : ginput) (dpar wpar : bool)
            (o : observed) (geom_is_domain : bool) : bool :=
   check_out (gradient q gf rg dg d w dpar wpar) o && geom_is_domain.
+
+(* tolerance cell class (real-valued DST geometries): values within 1e-9 relative of the model's exact rationals *)
+Definition check_out_tol (r : res output) (o : observed) : bool :=
+  match r, o with
+  | Ok out, ObsVal k cols => Nat.eqb (out_kind out) k && qcll_close tol9 (qmat cols) (out_cols out)
+  | Err e, ObsErr e' => err_eqb e e'
+  | _, _ => false
+  end.
+Definition check_forward_tol (q : quirks) (F : fwd) (rg dg : geo) (x : input) (is_par : bool)
+           (o : observed) (geom_is_range : bool) : bool :=
+  check_out_tol (forward q F rg dg x is_par) o && geom_is_range.
 
 (* cells in which only "refused" is compared (exception class not modelled) *)
 Definition check_refused (r : res output) (raised : bool) : bool :=
